@@ -329,7 +329,14 @@ class Ctx:
         for site, fs in sorted(by_site.items()):
             k = next((k for k in known if k["site"] == site), None)
             conf = None
-            for f in fs[:3]:
+            # candidates: a few failures of every stage that reported this site (a failure of one stage may depend on the
+            # process it ran in, e.g. state left behind by other cases, while another stage's reproduces by itself)
+            cands, per_stage = [], {}
+            for f in fs:
+                per_stage[f["stage"]] = per_stage.get(f["stage"], 0) + 1
+                if per_stage[f["stage"]] <= 3:
+                    cands.append(f)
+            for f in cands[:12]:
                 if self.confirm(f):
                     conf = f
                     break
